@@ -369,6 +369,9 @@ class Env:
                 join_type=JoinType[st.get("join", "AND")], join_threshold=st.get("threshold", 0),
                 split_type=SplitType[st.get("split", "AND")], split_conditions=dict(st.get("conds", {})),
                 mutex_key=st.get("mutex"), deferred_choice_group=st.get("choice"),
+                milestone_ref_id=(st["milestone"][0] if st.get("milestone") else None),
+                milestone_status=(st["milestone"][1] if st.get("milestone") else None),
+                start_time_expiry=(1 if st.get("expired") else None),
                 tasks=[TaskExecution.create(name=f"t{i}", implementing_class=f"vt_{st['ref']}_{i}",
                                             stage_start=(i == 0), stage_end=(i == len(st["tasks"]) - 1))
                        for i in range(len(st.get("tasks", [])))],
